@@ -64,6 +64,7 @@ func Genesis(c *chainsim.Chain) gnoland.GnoGenesisState {
 		chainsim.GenesisAddPkgTxGas(dep, LibPath, map[string]string{"lib.gno": LibSrc}, gas),
 		chainsim.GenesisAddPkgTxGas(dep, StorePath, map[string]string{"store.gno": StoreSrc}, gas),
 		chainsim.GenesisAddPkgTxGas(dep, PeerPath, map[string]string{"peer.gno": PeerSrc}, gas),
+		chainsim.GenesisAddPkgTxGas(dep, CfgPath, map[string]string{"cfg.gno": CfgSrc}, gas),
 	)
 	// fund the peer realm so Pay can succeed
 	st.Balances = append(st.Balances, gnoland.Balance{Address: RealmAddr(PeerPath), Amount: std.Coins{{Denom: "ugnot", Amount: 5_000_000_000}}})
@@ -135,6 +136,23 @@ func peerOp(r *rand.Rand) MsgSpec {
 		return MsgSpec{Kind: "call", Pkg: PeerPath, Func: "BurnCoin", Args: []string{"@" + pick(r, Users), "tok", itoa(1 + r.IntN(600))}}
 	default:
 		return MsgSpec{Kind: "call", Pkg: PeerPath, Func: "Mint", Args: []string{"@" + pick(r, Users), "tok", itoa(1 + r.IntN(1000))}}
+	}
+}
+
+// cfgOp writes, resizes or deletes realm-local chain parameters.
+func cfgOp(r *rand.Rand) MsgSpec {
+	k := pick(r, []string{"alpha", "beta", "g.h", "k_1"})
+	switch r.IntN(5) {
+	case 0:
+		return MsgSpec{Kind: "call", Pkg: CfgPath, Func: "SetS", Args: []string{k, itoa(r.IntN(200))}}
+	case 1:
+		return MsgSpec{Kind: "call", Pkg: CfgPath, Func: "SetI", Args: []string{k, itoa(r.IntN(1 << 30))}}
+	case 2:
+		return MsgSpec{Kind: "call", Pkg: CfgPath, Func: "SetB", Args: []string{k, itoa(r.IntN(120))}}
+	case 3:
+		return MsgSpec{Kind: "call", Pkg: CfgPath, Func: "SetB", Args: []string{k, "0"}} // delete
+	default:
+		return MsgSpec{Kind: "call", Pkg: CfgPath, Func: "SetL", Args: []string{k, itoa(r.IntN(8))}}
 	}
 }
 
@@ -255,9 +273,12 @@ func GenP(r *rand.Rand, seed uint64, nBlocks, maxTxs int, prof Profile) *History
 			case k < 38:
 				tx.Msgs = []MsgSpec{storeOp(r)}
 				tx.Label = "store"
-			case k < 50:
+			case k < 46:
 				tx.Msgs = []MsgSpec{peerOp(r)}
 				tx.Label = "peer"
+			case k < 50:
+				tx.Msgs = []MsgSpec{cfgOp(r)}
+				tx.Label = "cfg"
 			case k < 60:
 				tx.Msgs = []MsgSpec{runScript(r)}
 				tx.Label = "run"
